@@ -525,6 +525,9 @@ func (ev *evalCtx) call(e *Expr) Term {
 	case "scat":
 		f := c.declFun("scat", []Sort{"Str", "Str"}, "Str")
 		return Term{app(f, arg(0).S, arg(1).S), "Str", types.Typ[types.String]}
+	case "substr": // substr(s, lo, hi): the term the translation gives to the Go expression s[lo:hi]
+		f := c.declFun("ssub", []Sort{"Str", "Int", "Int"}, "Str")
+		return Term{app(f, arg(0).S, arg(1).S, arg(2).S), "Str", types.Typ[types.String]}
 	case "selem":
 		return Term{app("selem", arg(0).S, arg(1).S), "Ref", nil}
 	case "eref":
